@@ -2226,6 +2226,9 @@ func (c *Conn) handleCloseError(closeErr *closeError) {
 		transportErr          *TransportError
 	)
 	var isRemoteClose bool
+	// isSilentClose is set for errors that must not be answered with a CONNECTION_CLOSE,
+	// even if they reach the run loop as a regular (not immediate) error.
+	var isSilentClose bool
 	var trigger qlog.ConnectionCloseTrigger
 	var reason string
 	var transportErrorCode *qlog.TransportErrorCode
@@ -2236,9 +2239,17 @@ func (c *Conn) handleCloseError(closeErr *closeError) {
 		trigger = qlog.ConnectionCloseTriggerIdleTimeout
 	case errors.As(e, &statelessResetErr):
 		trigger = qlog.ConnectionCloseTriggerStatelessReset
+		// An endpoint that receives a stateless reset must not send any further packets on this connection,
+		// see section 10.3.1 of RFC 9000. This also applies when the stateless reset was detected by the
+		// connection itself (and not by the Transport), e.g. when using zero-length connection IDs.
+		isSilentClose = true
 	case errors.As(e, &versionNegotiationErr):
 		trigger = qlog.ConnectionCloseTriggerVersionMismatch
 	case errors.As(e, &recreateErr):
+		// The server doesn't know this connection: it just told us that it doesn't support the version.
+		// The connection is recreated (using the same, or a new, connection ID) right away:
+		// no CONNECTION_CLOSE, and no closed connection taking the place of the new one.
+		isSilentClose = true
 	case errors.As(e, &applicationErr):
 		isRemoteClose = applicationErr.Remote
 		reason = applicationErr.ErrorMessage
@@ -2290,7 +2301,7 @@ func (c *Conn) handleCloseError(closeErr *closeError) {
 		c.connIDGenerator.ReplaceWithClosed(nil, 3*c.rttStats.PTO(false))
 		return
 	}
-	if closeErr.immediate {
+	if closeErr.immediate || isSilentClose {
 		c.connIDGenerator.RemoveAll()
 		return
 	}
